@@ -31,6 +31,8 @@ INSERT = ['insert_round']
 AIMABLE = LOOP + ['inline'] + ROUNDING + INSERT
 EXPR_SITED = ('inline', 'insert_round', 'rw_fma', 'rw_dbl')     # strategies whose sites are expressions
 RULES = ['rw_fma', 'rw_sum', 'rw_dbl', 'rw_peel']     # user rewrite rules (fpy2.rewrite.Rewrite), aimed like strategies
+MAX_STMTS = 250
+HISTORY_TIME_LIMIT_S = 40
 OPAQUE = ['simplify', 'elim_iter', 'fuse', 'elim_round', 'lift_context', 'close']
 
 
@@ -549,6 +551,10 @@ class World:
         ni = self.node(op['node'])
         f = self.nodes[ni]['fn']
         name, params = op['strategy'], op['params']
+        if sum(1 for _ in M.walk(f.ast)) > MAX_STMTS:
+            # repeated unrolling of nested loops grows a program geometrically: bounded, not explored
+            self.stats.count('undecided', 'program-too-large-to-rewrite-further')
+            return
         try:
             sites, refs = list_sites(name, f, params)
         except Exception as e:
@@ -939,6 +945,10 @@ def _fmt(s) -> str:
 # --------------------------------------------------------------------------
 # runs, minimisation, replay, batch
 
+class HistoryTimeout(BaseException):
+    """A history exceeded its wall-clock allowance (counted as undecided, never as a violation)."""
+
+
 def run_history(hist: dict):
     w = World(hist)
     vios = w.run()
@@ -949,9 +959,21 @@ def run(seed: int, tier: str) -> dict:
     st = core.Stats()
     violations = []
     r = random.Random(seed)
+    import signal
+
+    def _alarm(sig, frm):
+        raise HistoryTimeout()
+    old = signal.signal(signal.SIGALRM, _alarm)
     for i in range(4):
         hist = gen_history(r.randrange(1 << 62), tier)
-        vios, w = run_history(hist)
+        signal.alarm(HISTORY_TIME_LIMIT_S)
+        try:
+            vios, w = run_history(hist)
+        except HistoryTimeout:
+            st.count('undecided', 'history-time-limit')
+            continue
+        finally:
+            signal.alarm(0)
         st.merge(w.stats.dump())
         st.count('histories', 'total')
         st.count('history_len', str(len(hist['ops'])))
@@ -964,6 +986,7 @@ def run(seed: int, tier: str) -> dict:
         for v in vios:
             v['seed'] = hist['seed']
             violations.append(v)
+    signal.signal(signal.SIGALRM, old)
     return {'stats': st.dump(), 'violations': violations}
 
 
